@@ -10,8 +10,16 @@ from eaopack.assets import (Node, Timegrid, SimpleContract, Contract, Transport,
 from eaopack.portfolio import Portfolio, StructuredAsset, LinkedAsset
 
 
+_TZ = [None]     # zone of the grid being built: aware instants of a spec are handed to eaopack as timestamps in that zone
+
+
 def ts(x):
-    return None if x is None else pd.Timestamp(x)
+    if x is None:
+        return None
+    t = pd.Timestamp(x)
+    if t.tzinfo is not None and _TZ[0] is not None:
+        t = t.tz_convert(_TZ[0])
+    return t
 
 
 def mk_param(p):
@@ -28,6 +36,7 @@ def mk_param(p):
 
 
 def mk_grid(g):
+    _TZ[0] = g.get('tz')
     return Timegrid(ts(g['start']), ts(g['end']), freq=g['freq'], main_time_unit=g.get('unit', 'h'),
                     timezone=g.get('tz'))
 
@@ -61,6 +70,7 @@ def mk_nodes(names, pool):
 
 
 def mk_asset(a, pool, tz=None):
+    _TZ[0] = tz
     kind = a['kind']
     kw = {}
     for k in COMMON:
@@ -81,7 +91,11 @@ def mk_asset(a, pool, tz=None):
                                nodes=mk_nodes(a['nodes'], pool), **kw)
     if kind == 'OrderBook':
         o = a['orders']
-        lz = (lambda v: ts(v).tz_localize(tz)) if tz is not None else ts   # orders are compared with the grid points directly
+        def lz(v):     # orders are compared with the grid points directly
+            v = ts(v)
+            if tz is None:
+                return v
+            return v.tz_localize(tz) if v.tzinfo is None else v.tz_convert(tz)
         orders = {'start': [lz(v) for v in o['start']], 'end': [lz(v) for v in o['end']],
                   'capa': list(o['capa']), 'price': list(o['price'])}
         kw.pop('start', None)
@@ -98,6 +112,7 @@ def mk_prices(spec):
 
 
 def mk_portfolio(spec):
+    _TZ[0] = spec['grid'].get('tz')
     pool = {}
     assets = [mk_asset(a, pool, spec['grid'].get('tz')) for a in spec['assets']]
     return Portfolio(assets)
